@@ -104,7 +104,8 @@ def only_once(volumes):
     # slashes): its trash directories are still to be handled once
     seen = set()
     for volume in volumes:
-        key = os.path.normpath(volume)
+        # (not normpath: 'link/..' is not a spelling of '.')
+        key = volume.rstrip(os.path.sep) or os.path.sep
         if key not in seen:
             seen.add(key)
             yield volume
